@@ -1,10 +1,11 @@
 (* Dispatcher from property number to the correspondence entry point of its model. *)
 From Coq Require Import List ZArith.
-From GP Require Import Base.Val Base.GoStrings Model.Secure Model.Negotiate.
+From GP Require Import Base.Val Base.GoStrings Model.Secure Model.Negotiate Model.Handshake Model.Params.
 
 Definition check_prop (p : Z) (inp obs : V) : verdict :=
   match p with
   | 13%Z => check_secure inp obs
+  | 1%Z => check_handshake gen_hs_params inp obs
   | 2%Z => check_negotiate inp obs
   | 102%Z => check_clientver inp obs
   | 100%Z => check_gostrings inp obs
